@@ -625,7 +625,8 @@ fn c02(tier: Tier) -> i32 {
                 "date" => ("the_date()".into(), "move || the_date()".into(), "()".into()),
                 "time" => ("the_time()".into(), "move || the_time()".into(), "()".into()),
                 "datetime" => ("the_datetime()".into(), "move || the_datetime()".into(), "()".into()),
-                _ => ("[\"A\", \"B\", \"C\"]".into(), "move || [\"A\", \"B\", \"C\"]".into(), "&[\"A\", \"B\", \"C\"]".into()),
+                // (an item that is the empty string is still an item, in every flavour)
+                _ => ("[\"A\", \"\", \"C\", \"D\"]".into(), "move || [\"A\", \"\", \"C\", \"D\"]".into(), "&[\"A\", \"\", \"C\", \"D\"]".into()),
             };
             for l in locales {
                 let lv = locale_variant(l);
@@ -1098,6 +1099,11 @@ fn c17(tier: Tier, pid: &str) -> i32 {
                 }
             }
             e.push(("greet".into(), s(vec![text(&format!("[{loc}.{ns}] \"")), var("x"), text("\" </script>")])));
+            // a plain key the second locale leaves to the default (null): read in either locale it is the DEFAULT's unit
+            // that is used
+            if *ns == "one" {
+                e.push(("nul".into(), if *loc == "en" { st("[en.nul] only \"here\" </script>") } else { Val::Null }));
+            }
             tables.insert((loc.to_string(), ns.to_string()), chunk);
             p.set_file(if namespaced { Some(ns) } else { None }, loc, e);
         }
@@ -1155,6 +1161,16 @@ fn c17(tier: Tier, pid: &str) -> i32 {
                     n_pages += 1;
                 }
             }
+        }
+        // a page whose only read is the plain key that the second locale leaves to the default
+        for l in ["en", l2] {
+            let key = if namespaced { "one.nul" } else { "nul" };
+            c.add(
+                format!("render_page(move || {{ let _ = futures::executor::block_on(async {{ td_string!({}, {key}).await.to_string() }}); }})", locale_variant(l)),
+                format!("PAGE defaulted-plain-key read in {l} touched [(\"en\", \"one\")]"),
+                String::new(),
+            );
+            n_pages += 1;
         }
         // through the context, with a locale switch in the middle of the render
         let k1 = if namespaced { "one.greet" } else { "greet" };
@@ -1676,7 +1692,7 @@ fn c18(tier: Tier) -> i32 {
     // (.. whole numbers beyond the 64-bit integers, the negative zero)
     // (.. four integer digits: where `min2` and `auto` part in locales that group from the fourth digit on)
     let num_values: Vec<f64> = vec![1234567.891, 1234.0, 0.0, 42.0, -42.0, -9999.5, 1e19, 6.022e23, -0.0, 9007199254740993.0];
-    let lists: Vec<&str> = vec!["[\"A\", \"B\", \"C\"]", "[\"A\"]", "[\"A\", \"B\"]", "[\"\"; 0]"];
+    let lists: Vec<&str> = vec!["[\"A\", \"B\", \"C\"]", "[\"A\"]", "[\"A\", \"B\"]", "[\"\"; 0]", "[\"A\", \"\", \"C\"]"];
     // position of each declaration inside its family: the quick tier runs the view / format-macro flavours on the
     // first two declarations of every family and on every third of the rest
     let mut fam_seen: BTreeMap<&str, usize> = BTreeMap::new();
